@@ -62,9 +62,9 @@ def steps_strategy():
     return st.lists(step, min_size=2, max_size=30)
 
 
-def case_strategy():
-    return st.tuples(wbspec.specs(), st.sampled_from(models.CONFIGS),
-                     steps_strategy())
+def case_strategy(focus=None):
+    return st.tuples(wbspec.specs(focus=focus),
+                     st.sampled_from(models.CONFIGS), steps_strategy())
 
 
 class Runner:
@@ -315,7 +315,10 @@ def _body(rec):
 
 def run_shard(shard, rec):
     if shard['kind'] == 'hyp':
-        hyp.search(rec, case_strategy(), _body(rec), shard['n'],
+        # (every third shard: CSE blocks fed by context-sensitive cells)
+        hyp.search(rec, case_strategy(
+            'context' if shard['seed'] % 3 == 0 else None), _body(rec),
+            shard['n'],
                    shard['seed'])
     else:
         spec = FIXED_SPECS[shard['spec']]
